@@ -156,7 +156,8 @@ PROPS = {
     "C06": {
         "title": "Function references stay bound to the same function across edits",
         "units": ["V2_reindex", "V3_remap", "V6_api", "V11_emit", "V12_sections"],
-        "obligations": V2_GENERIC + v2_inst("Function", "Functions") + V6_FUNCS + [
+        "kani_thorough": ["k5_spec_ref_func"],
+        "obligations": ["K:k5_spec_ref_func"] + V2_GENERIC + v2_inst("Function", "Functions") + V6_FUNCS + [
             "V3_remap.refers_to_func.*", "V3_remap.fn:refers_to_func", "V3_remap.update_fn_instr.*", "V3_remap.fn:update_fn_instr",
             "V3_remap.fix_op_id_mapping.*", "V3_remap.fn:fix_op_id_mapping", "V3_remap.InitInstr.*", "V3_remap.fn:InitInstr::fix_id_mapping",
             "V3_remap.fn:lemma_families_disjoint"],
@@ -167,7 +168,8 @@ PROPS = {
     "C07": {
         "title": "Global references stay bound to the same global across edits",
         "units": ["V2_reindex", "V3_remap", "V6b_api2", "V11_emit", "V12_sections"],
-        "obligations": V2_GENERIC + v2_inst("Global", "ModuleGlobals") + V6_GLOBALS + [
+        "kani_thorough": ["k5_spec_global_get"],
+        "obligations": ["K:k5_spec_global_get"] + V2_GENERIC + v2_inst("Global", "ModuleGlobals") + V6_GLOBALS + [
             "V3_remap.refers_to_global.*", "V3_remap.fn:refers_to_global", "V3_remap.update_global_instr.*", "V3_remap.fn:update_global_instr",
             "V3_remap.fix_op_id_mapping.*", "V3_remap.fn:fix_op_id_mapping", "V3_remap.InitInstr.*", "V3_remap.fn:InitInstr::fix_id_mapping"],
         "obligations_extra": V12_CEXPR + V12_ELEMS + V12_TABLES + V12_GLOBALS + V12_EXPORTS + V12_DATA + ["V11_emit.fn:encode_function_body", "V11_emit.update_ids_and_encode.*", "V11_emit.fn:update_ids_and_encode"],
@@ -401,17 +403,19 @@ PROPS = {
                         "V12_sections.encode_tables.one_record_per_tagged_table", "V12_sections.encode_tables.no_other_records", "V12_sections.fn:Module::encode_tables", "V12_sections.fn:Table as TagUtils::get_tag",
                         "V12_sections.encode_elements.one_record_per_tagged_segment", "V12_sections.encode_elements.no_other_records", "V12_sections.fn:Module::encode_elements", "V12_sections.fn:Element as TagUtils::get_tag",
                         "V12_sections.encode_type_section.one_record_per_tagged_type", "V12_sections.encode_type_section.no_other_records", "V12_sections.fn:Module::encode_type_section", "V12_sections.fn:Types as TagUtils::get_tag",
+                        "V12_sections.encode_globals.one_record_per_live_tagged_local_global", "V12_sections.encode_globals.no_other_records", "V12_sections.fn:Module::encode_globals", "V12_sections.fn:Global as TagUtils::get_tag", "V12_sections.fn:Global as GetID::*",
+                        "V12_sections.encode_data_segments.one_record_per_tagged_segment_in_the_encoded_index_space", "V12_sections.encode_data_segments.no_other_records", "V12_sections.fn:Module::encode_data_segments", "V12_sections.fn:DataSegment as TagUtils::get_tag",
                         # the stored types (and with them their tags) are not touched by later additions: a type gets a record iff it was added with a tag
                         "V7_types.add_type.existing_types_unchanged", "V7_types.add_type.new_type_gets_next_id_and_own_group", "V7_types.fn:ModuleTypes::add_type"],
-        "glue": ["ASSUMED: add_injection (a HashMap entry().and_modify(closure).or_insert() chain) appends the record to the list of its kind and touches nothing else; #[derive(Clone)] of Tag and String::clone yield equal values; str::to_string is modelled by an uninterpreted str_owned",
-                 "only the Type, Import, Export, Memory, Table and Element records are decided. Records for functions, locals, globals, data and probes (add_injections / add_opcode_injections / add_corrected_special_injections: closure-based, over HashMaps) are NOT under contract; that probe bodies use the encoded index space follows only from V11 (every injected operator is remapped in place before the records are built) and is not stated as a clause",
+        "glue": ["ASSUMED: add_injection (a HashMap entry().and_modify(closure).or_insert() chain) appends the record to the list of its kind and touches nothing else; #[derive(Clone)] of Tag, Types and InitExpr, String::clone, <[u8]>::to_vec and Tag::to_owned yield equal values; DataType::from(ValType) is an uninterpreted dt_of (its exactness: Kani K1); str::to_string is modelled by an uninterpreted str_owned",
+                 "the Type, Import, Export, Memory, Table, Element, Global and Data records are decided (the last two through a view, because they hold Vecs: id / type / tag / initialiser resp. memory / offset / bytes / tag, with the indices inside in the index space of the encoded module). Records for functions, locals and probes (add_injections / add_opcode_injections / add_corrected_special_injections: closure-based, over HashMaps) are NOT under contract; that probe bodies use the encoded index space follows only from V11 (every injected operator is remapped in place before the records are built) and is not stated as a clause",
                  "that items of the parsed module carry no tag (so get no record) is a property of parse_internal (it builds every item with tag None): read, not proved"],
         "design_ref": "DESIGN.md §5 C23",
-        "level_text": "Partial (six of twelve record kinds): when side effects are pulled, the report gains exactly one Type record per tagged type of the module (carrying that type; V7: adding a type never changes a stored type or its tag), exactly one Export record per live tagged export, one Import record per live tagged import, one Memory record per tagged local memory, one Table record per tagged table and one Element record per tagged element segment - with the item's own name / kind / index resp. module / name / type resp. id / limits and its tag - and no record for untagged or deleted ones; nothing else in the report changes in those three loops. After fix F25.",
+        "level_text": "Partial (eight of twelve record kinds; Global records: id, type, tag and the initialiser as emitted; data records: bytes, tag and - active ones - memory and offset as emitted, after fix F31): when side effects are pulled, the report gains exactly one Type record per tagged type of the module (carrying that type; V7: adding a type never changes a stored type or its tag), exactly one Export record per live tagged export, one Import record per live tagged import, one Memory record per tagged local memory, one Table record per tagged table and one Element record per tagged element segment - with the item's own name / kind / index resp. module / name / type resp. id / limits and its tag - and no record for untagged or deleted ones; nothing else in the report changes in those three loops. After fix F25.",
     },
 }
 
-HOOK_COMMITS = ["6108179", "dd5c5ea", "537dc3a", "193503a"]
+HOOK_COMMITS = ["6108179", "dd5c5ea", "537dc3a", "193503a", "89c40c7"]
 
 NOT_APPLICABLE = {
     "C16": "behavioural equivalence of original and instrumented module needs a WebAssembly execution semantics and a simulation proof; neither installed deductive verifier has one, and a syntactic contract cannot express it",
